@@ -8,14 +8,24 @@ From Coq Require Import List NArith Arith Lia Bool Sorted Permutation.
 From Tongo Require Import Lib.Bits Lib.Res Spec.Dict Model.Hashmap Proofs.DictP.
 Import ListNotations.
 
+(** what Put/Get need from a key type: Equal is equality, Compare is a strict
+    total order *)
+Record key_order {K : Type} (keq klt : K -> K -> bool) : Prop := {
+  ko_eq : forall a b, keq a b = true <-> a = b;
+  ko_irrefl : forall a, klt a a = false;
+  ko_trans : forall a b c, klt a b = true -> klt b c = true -> klt a c = true;
+  ko_total : forall a b, klt a b = false -> klt b a = false -> a = b
+}.
+
 Section PutP.
 Variables K V : Type.
 Variable keq : K -> K -> bool.
 Variable klt : K -> K -> bool.
-Hypothesis keq_spec : forall a b, keq a b = true <-> a = b.
-Hypothesis klt_irrefl : forall a, klt a a = false.
-Hypothesis klt_trans : forall a b c, klt a b = true -> klt b c = true -> klt a c = true.
-Hypothesis klt_total : forall a b, klt a b = false -> klt b a = false -> a = b.
+Hypothesis KO : key_order keq klt.
+Let keq_spec := ko_eq keq klt KO.
+Let klt_irrefl := ko_irrefl keq klt KO.
+Let klt_trans := ko_trans keq klt KO.
+Let klt_total := ko_total keq klt KO.
 
 Notation kmap := (list (K * V)).
 Notation put := (put keq klt).
@@ -313,6 +323,11 @@ Proof.
     apply bits_ltb_lt in H; congruence.
 Qed.
 
+Lemma bits_key_order : key_order bits_eqb bits_ltb.
+Proof.
+  constructor; [exact bits_eqb_eq|exact bits_ltb_irrefl|exact bits_ltb_trans|exact bits_ltb_total].
+Qed.
+
 Lemma ksorted_bits_sorted {V} (m : list (bits * V)) :
   ksorted bits V bits_ltb m <-> sorted m.
 Proof.
@@ -369,3 +384,8 @@ Proof. apply bits_ltb_trans. Qed.
 
 Lemma signed_ltb_total a b : signed_ltb a b = false -> signed_ltb b a = false -> a = b.
 Proof. intros H1 H2. apply flip_first_inj. apply bits_ltb_total; assumption. Qed.
+
+Lemma signed_key_order : key_order bits_eqb signed_ltb.
+Proof.
+  constructor; [exact bits_eqb_eq|exact signed_ltb_irrefl|exact signed_ltb_trans|exact signed_ltb_total].
+Qed.
